@@ -29,6 +29,12 @@ def configs(tier):
             sh.append(('sharded', dict(W=W, S=S, total=total, batch=batch,
                                        ibs=ibs, fuse=fuse)))
   sh.append(('sharded', dict(W=2, S=2, total=4, batch=2, agg=False)))
+  # a sliced aggregate whose slice values mostly occur in one shard only
+  for W in (1, 2):
+    for S in (1, 2, 3, 4):
+      for fuse in (True, False):
+        sh.append(('sharded', dict(W=W, S=S, total=7, batch=2, fuse=fuse,
+                                   sliced=True)))
   for W in (1, 2):
     for buf in (0, 1, 2):
       for total, batch in ((0, 2), (3, 2), (4, 2), (5, 2)):
@@ -82,7 +88,7 @@ def run(ctx):
   ctx.rule = (
       f'{len(sh)} configurations of sharded_pipelines_as_iterator (workers 1-'
       f'{2 if ctx.quick else 3}, shards 1-4, 0-7 rows, iterate_batch_size 1/2/4, '
-      f'fused/unfused aggregate) and {len(il)} of run_pipeline_interleaved with '
+      f'fused/unfused aggregate, plain and sliced) and {len(il)} of run_pipeline_interleaved with '
       'a worker-pool stage (workers 1-2, buffer 0/1/2, num_workers cap) under '
       'the default schedule; 5 configurations with every placement of one pause '
       'of the orchestrating loop (slow orchestrator, pause until quiescence, once '
